@@ -131,26 +131,30 @@ class Universe:
 
 # ---- encoding ---------------------------------------------------------------------------------------------------------------
 
+def _reverse_bytes(seq, nbytes):
+    """byte reversal of a Seq of 8*nbytes bits"""
+    rest, parts = seq, []
+    for _ in range(nbytes):
+        b, rest = rest.take_front(8)
+        parts.insert(0, b)
+    out = Seq()
+    for p in parts:
+        out = out + p
+    return out
+
+
 def le_uint(v, nbytes):
-    """little-endian unsigned integer as a Seq (v concrete or symbolic, 0 <= v < 256^nbytes)"""
+    """little-endian unsigned integer: the big-endian image with its bytes reversed (0 <= v < 256^nbytes)"""
     if type(v) is int:
         return Seq.from_bytes(v.to_bytes(nbytes, 'little'))
-    from vf.sym import SymInt
-    import z3
-    e = v.e if type(v) is SymInt else v
-    segs = []
-    for i in range(nbytes):
-        segs.append(Val(8, z3.simplify((e / (1 << (8 * i))) % 256)))
-    return Seq(segs)
+    return _reverse_bytes(E.uint(v, 8 * nbytes), nbytes)
 
 
 def le_int(v, nbytes):
+    """little-endian two's complement"""
     if type(v) is int:
         return Seq.from_bytes(v.to_bytes(nbytes, 'little', signed=True))
-    import z3
-    from vf.sym import SymInt
-    e = v.e if type(v) is SymInt else v
-    return le_uint(z3.If(e < 0, e + (1 << (8 * nbytes)), e), nbytes)
+    return _reverse_bytes(E.int_(v, 8 * nbytes), nbytes)
 
 
 def frame(w, data_seq, nbytes):
